@@ -47,8 +47,10 @@ Section Extract.
        diag_axes = [axis for axis in range(ndim) if <other>(axis, axis1, axis2)] + [axis1]
        diag_shape = [a.shape[axis] for axis in diag_axes]; diag_shape[-1] = <last_extent>(diag_shape[-1], offset)
        diag_idx = positions i with <match>(coords[axis1][i], coords[axis2][i], offset)
-       COO([a.coords[axis][diag_idx] for axis in diag_axes], a.data[diag_idx], diag_shape)
-     (a negative extent makes the constructor raise ValueError) *)
+       pos_axes = diag_axes[:-1] + [<pos_axis>(axis1, axis2, offset)]
+       COO([a.coords[axis][diag_idx] for axis in pos_axes], a.data[diag_idx], diag_shape, fill_value=...)
+     (a.shape[i] / a.coords[i] are Python indexing: negative i counts from the end, but the
+      comparison `axis != axis1` in diag_axes is on the raw numbers) *)
   Definition coo_diagonal (fl : ctor_flags) (checks_zero : bool) (x : coo V)
              (offset axis1 axis2 : Z) : res (coo V) :=
     if checks_zero && negb (veqb (c_fill x) vzero) then Raise ValueError else
@@ -56,17 +58,19 @@ Section Extract.
     d1 <- py_index sh axis1 ;;
     d2 <- py_index sh axis2 ;;
     _ <- site_diagonal_guard (VInt d1) (VInt d2) ;;
-    let diag_axes := filter (fun ax => pred3 site_diagonal_other_axis ax axis1 axis2)
-                            (zrange (Z.of_nat (length sh))) ++ [axis1] in
-    let dsh0 := map (py_nth sh) diag_axes in
+    let others := filter (fun ax => pred3 site_diagonal_other_axis ax axis1 axis2)
+                         (zrange (Z.of_nat (length sh))) in
+    let dsh0 := map (py_nth sh) (others ++ [axis1]) in
     lst <- as_Z (site_diagonal_last_extent (VInt (last dsh0 0)) (VInt offset)) ;;
     let dsh := removelast dsh0 ++ [lst] in
+    pos <- as_Z (site_diagonal_pos_axis (VInt axis1) (VInt axis2) (VInt offset)) ;;
+    let pos_axes := others ++ [pos] in
     let es := filter (fun e => pred3 site_diagonal_match (py_nth (fst e) axis1) (py_nth (fst e) axis2) offset)
                      (entries x) in
     if lst <? 0 then Raise ValueError else
     coo_ctor V veqb vadd (fl_sorted fl 0) (fl_has_duplicates fl 0) (fl_prune fl 0)
              (fill_of V vzero (fl_fill fl) (c_fill x)) dsh
-             (map (fun e => map (py_nth (fst e)) diag_axes) es) (map snd es).
+             (map (fun e => map (py_nth (fst e)) pos_axes) es) (map snd es).
 
   (* ---------------------------------------------------------------- diagonalize
        diag_shape = a.shape + (a.shape[axis],); diag_coords = vstack([a.coords, a.coords[axis]]) *)
@@ -112,8 +116,9 @@ Section Extract.
     Ok (mkCOO sh (map fst es) (map snd es) (c_fill x)).
 End Extract.
 
-(* ------------------------------------------------------------------ named domain clauses (true = inside the domain) *)
-Definition D5_negative_offset (offset : Z) : bool := 0 <=? offset.
+(* ------------------------------------------------------------------ named domain clauses (true = inside the domain)
+   diagonal_nonsquare: the code requires a.shape[axis1] == a.shape[axis2] (documented ValueError), NumPy does not;
+   diagonal_negative_axis: the code does not normalise negative axes (wrong shape / values), NumPy does *)
 Definition diagonal_negative_axis (axis1 axis2 : Z) : bool := (0 <=? axis1) && (0 <=? axis2).
 Definition diagonal_nonsquare (sh : shape) (axis1 axis2 : Z) : bool := py_nth sh axis1 =? py_nth sh axis2.
 
@@ -132,9 +137,6 @@ Section Instances.
   Variable veqb : V -> V -> bool.
   Variable vzero : V.
   Variable vadd : V -> V -> V.
-
-  Definition D5_nonzero_fill (x : coo V) : bool := veqb (c_fill x) vzero.
-  Definition D14_nonzero_fill (x : coo V) : bool := veqb (c_fill x) vzero.
 
   Definition coo_triu_src : coo V -> Z -> res (coo V) :=
     coo_tri V veqb vzero vadd site_triu_keep site_triu_ndim_guard triu_flags site_triu_checks_zero_fill.
